@@ -296,6 +296,9 @@ pub fn run(ctx: &RunCtx) -> Vec<PartOutcome> {
         },
         check_norm,
     ));
+    if ctx.tier == Tier::Thorough {
+        parts.push(crate::fuzzdec::libfuzzer_part(ctx, "glob", 3_000_000, 200));
+    }
     parts
 }
 
@@ -303,6 +306,7 @@ pub fn replay(part: &str, input: &Value) -> Option<Result<Result<(), Viol>, Stri
     match part {
         "glob_mutated" | "glob_random" | "glob_exhaustive" => Some(replay_input::<GlobCase>(input, check_pair)),
         "normalise_exhaustive" => Some(replay_input::<NormCase>(input, check_norm)),
+        "libfuzzer_glob" => Some(crate::fuzzdec::replay_bytes_case(input)),
         _ => None,
     }
 }
